@@ -42,6 +42,8 @@ structure Ops (σ PC : Type) where
   openGate : σ → σ
   /-- trailing counters of the observation line -/
   summary : σ → String
+  /-- re-tabulates the counter function (extensionally the identity: `compact_eq`); keeps lookups O(1) -/
+  compact : σ → σ
 
 structure Thread (PC : Type) where
   name : String
@@ -70,12 +72,12 @@ def stepTh (ops : Ops σ PC) (e : Exec σ PC) (t : Thread PC) (ch : Bool) : Opti
   | some pc, none =>
     match ops.gstep e.sh pc ch with
     | none => none
-    | some (sh', .fin r) => some (setTh { e with sh := sh' } { t with pc := none, res := some r })
+    | some (sh', .fin r) => some (setTh { e with sh := ops.compact sh' } { t with pc := none, res := some r })
     | some (sh', .at pc') =>
       let pk := match ops.point pc' with
         | some p => if t.arm.contains p then some p else none
         | none => none
-      some (setTh { e with sh := sh' } { t with pc := some pc', parked := pk })
+      some (setTh { e with sh := ops.compact sh' } { t with pc := some pc', parked := pk })
   | _, _ => none
 
 def firstStep (ops : Ops σ PC) (e : Exec σ PC) (ch : Bool) : List (Thread PC) → Option (Exec σ PC)
@@ -149,7 +151,7 @@ def execStep (ops : Ops σ PC) (e : Exec σ PC) (tok0 : String) : Exec σ PC × 
           let pk := match ops.point pc with
             | some p => if arm.contains p then some p else none
             | none => none
-          let e := setTh { e with sh := sh' } { t with pc := some pc, arm := arm, parked := pk }
+          let e := setTh { e with sh := ops.compact sh' } { t with pc := some pc, arm := arm, parked := pk }
           report (settle ops fuel0 e) n
     | _ =>
       match tok.splitOn ">" with
@@ -195,5 +197,8 @@ def param (ps : List String) (k : String) (dflt : Nat) : Nat :=
 
 def splitSteps (body : String) : List String :=
   ((body.splitOn ";").map (fun t => t.trimAscii.toString)).filter (· ≠ "")
+
+/-- table-backed counter function: `tbl (kinds.map f) idx` agrees with `f` on every kind -/
+def tblGet (l : List Nat) (i : Nat) : Nat := l.getD i 0
 
 end FpgoVerif.C15
